@@ -110,6 +110,14 @@ def origin_has_call(org, *subs):
     return False
 
 
+def origin_mutated_by(org, *subs):
+    """The value was handed as `&mut` to a call whose name matches (an out-parameter / accumulator update)."""
+    for o in org:
+        if o[0] == "mutated-by" and o[1] and any(s in o[1] for s in subs):
+            return True
+    return False
+
+
 def origin_calls(org):
     return sorted({o[1] for o in org if o[0] in ("call", "via") and o[1]})
 
